@@ -30,6 +30,9 @@ def obligations(tier):
         obs.append(dict(name="header-scan-stage-n%d" % n, harness="hdr.c", entry="h_scan", defs=["NSCAN=%d" % n], replace=["gotheaders:stub_gotheaders"], unwind=n + 8, backends=["cadical"], timeout=1800 if T else 280,
                         claim="callback_read_header on %d buffered bytes from an arbitrary valid scan position: the block up to the FIRST blank line is handed to the parser; otherwise it waits for one more byte with the scan position still valid; failure/EOF => failure callback" % n,
                         bounds="%d buffered bytes" % n, stubs=["gotheaders -> recording stub"]))
+    obs.append(dict(name="teardown-and-cancel", harness="life.c", entry="h_life", unwind=8, replace=["callback_read_header:stub_readheader"], backends=["cadical"], timeout=1800 if T else 280, flags=["--memory-leak-check"],
+                    claim="http_request_cancel / die / fail / docallback / callback_connected from the CONNECTING and the CONNECTED state (optional header block, header array, body): every resource released exactly once, cancel and die never call back, fail calls back once with NULL, docallback once with the response and the body handed over, connection failure reported once, reader/writer/request-write failures tear everything down; nothing leaked, nothing freed twice",
+                    bounds="both lifecycle states, every combination of optional buffers", stubs=["network_connect*, netbuf_* , close -> counting stubs", "callback_read_header -> stub"]))
     return obs
 SELFTESTS = [dict(name="str-models-vs-glibc", srcs=["/verif/models/selftest_str.c"], cflags=["-I/verif/models"], what="strcspn/strspn/strstr/stpcpy/sscanf(HTTP status line) models equal glibc on 2,000,000 strings"), dict(name="strto-models-vs-glibc", srcs=["/verif/models/selftest_strto.c"], cflags=["-I/verif/models"], what="strto models equal glibc on 3,000,000 strings")]
 TRUSTED = ["CBMC 6.11 C semantics", "cadical", "models/libc_strto.c"]
